@@ -399,7 +399,7 @@ theorem shiftF_new (δ : Int) (I : ObjIface σ) (id : Nat) (chk : Bool) :
     shiftF δ (FdtRecv.new I id chk) = FdtRecv.new I id chk := rfl
 
 theorem fdtEntry_shift (δ : Int) (I : ObjIface σ) (s : State σ) (id : Nat) :
-    fdtEntry I (shiftS δ s) id = (shiftS δ (fdtEntry I s id).1, shiftF δ (fdtEntry I s id).2) := by
+    fdtEntry I (shiftS δ s) id = (shiftS δ (fdtEntry I s id p).1, shiftF δ (fdtEntry I s id p).2) := by
   unfold fdtEntry
   have h1 : (shiftS δ s).fdtReceivers = s.fdtReceivers.map (fun kf => (kf.1, shiftF δ kf.2)) := rfl
   have h2 : (shiftS δ s).cfg = s.cfg := rfl
@@ -548,11 +548,11 @@ theorem skewOK_updateExpired (δ : Int) (f f' : FdtRecv σ) (now : Int) (h : Ske
     injection hu with hu; subst hu
     exact ⟨hnone, hrecv⟩
 
-theorem pushFdtObj_shift (δ : Int) (I : ObjIface σ) (s : State σ) (p : Pkt) (now : Int) (ans : FdtAns)
+theorem pushFdtObjP_shift (δ : Int) (I : ObjIface σ) (s : State σ) (p : Pkt) (now : Int) (ans : FdtAns)
     (hn : TimeSane now) (hn' : TimeSane (now + δ))
     (hsct : ∀ id, p.fdtId = some id → ∃ res, p.sct = some res ∧ 0 ≤ res ∧ res < 4294967296000000) :
-    pushFdtObj I (shiftS δ s) p (now + δ) ans = mapRes δ (pushFdtObj I s p now ans) := by
-  unfold pushFdtObj
+    pushFdtObj' I (shiftS δ s) p (now + δ) ans = mapRes δ (pushFdtObj' I s p now ans) := by
+  unfold pushFdtObj'
   cases hid : p.fdtId with
   | none =>
     simp only []
@@ -577,22 +577,22 @@ theorem pushFdtObj_shift (δ : Int) (I : ObjIface σ) (s : State σ) (p : Pkt) (
       split
       · rfl
       · rw [← shiftF_push δ I _ p now ans res hs, shiftF_st]
-        have hok : SkewOK δ ((fdtEntry I s id).2.push I p now ans) :=
+        have hok : SkewOK δ ((fdtEntry I s id p).2.push I p now ans) :=
           skewOK_push δ I _ p now ans res hs hr hn hn'
-        have hupd : (if ((fdtEntry I s id).2.push I p now ans).st = FdtState.complete then
-              (shiftF δ ((fdtEntry I s id).2.push I p now ans)).updateExpired (now + δ)
-            else Except.ok (shiftF δ ((fdtEntry I s id).2.push I p now ans))) =
-            (match (if ((fdtEntry I s id).2.push I p now ans).st = FdtState.complete then
-              ((fdtEntry I s id).2.push I p now ans).updateExpired now
-              else Except.ok ((fdtEntry I s id).2.push I p now ans)) with
+        have hupd : (if ((fdtEntry I s id p).2.push I p now ans).st = FdtState.complete then
+              (shiftF δ ((fdtEntry I s id p).2.push I p now ans)).updateExpired (now + δ)
+            else Except.ok (shiftF δ ((fdtEntry I s id p).2.push I p now ans))) =
+            (match (if ((fdtEntry I s id p).2.push I p now ans).st = FdtState.complete then
+              ((fdtEntry I s id p).2.push I p now ans).updateExpired now
+              else Except.ok ((fdtEntry I s id p).2.push I p now ans)) with
              | .ok f' => .ok (shiftF δ f') | .error w => .error w) := by
           split
           · exact updateExpired_shiftF δ _ now hn hn' hok
           · rfl
         rw [hupd]
-        cases hu : (if ((fdtEntry I s id).2.push I p now ans).st = FdtState.complete then
-              ((fdtEntry I s id).2.push I p now ans).updateExpired now
-              else Except.ok ((fdtEntry I s id).2.push I p now ans)) with
+        cases hu : (if ((fdtEntry I s id p).2.push I p now ans).st = FdtState.complete then
+              ((fdtEntry I s id p).2.push I p now ans).updateExpired now
+              else Except.ok ((fdtEntry I s id p).2.push I p now ans)) with
         | error w => rfl
         | ok f' =>
           simp only []
@@ -600,9 +600,9 @@ theorem pushFdtObj_shift (δ : Int) (I : ObjIface σ) (s : State σ) (p : Pkt) (
             split at hu
             · exact skewOK_updateExpired δ _ f' now hok hu
             · injection hu with hu; subst hu; exact hok
-          have hst : ({ shiftS δ (fdtEntry I s id).1 with
-                fdtReceivers := ainsert id (shiftF δ f') (shiftS δ (fdtEntry I s id).1).fdtReceivers } : State σ) =
-              shiftS δ { (fdtEntry I s id).1 with fdtReceivers := ainsert id f' (fdtEntry I s id).1.fdtReceivers } := by
+          have hst : ({ shiftS δ (fdtEntry I s id p).1 with
+                fdtReceivers := ainsert id (shiftF δ f') (shiftS δ (fdtEntry I s id p).1).fdtReceivers } : State σ) =
+              shiftS δ { (fdtEntry I s id p).1 with fdtReceivers := ainsert id f' (fdtEntry I s id p).1.fdtReceivers } := by
             simp only [shiftS, ainsert_map]
           rw [hst]
           exact fdtDispatch_shift δ I _ id f' now hn hn' hok'
